@@ -119,6 +119,146 @@ theorem placeBack_admissible : Admissible placeBack := fun n l => by
   unfold placeBack
   exact List.perm_append_singleton n l
 
+-- ------------------------------------------------------------------ the model's order is the specification's
+def notIdx (k : Key) : Bool := !k.isIdx
+
+theorem idxOf_append (a b : List Key) : idxOf (a ++ b) = idxOf a ++ idxOf b := by
+  induction a with
+  | nil => rfl
+  | cons k r ih => cases k <;> simp [idxOf, ih]
+
+theorem mem_idxOf (l : List Key) (n : Nat) : n ∈ idxOf l ↔ Key.idx n ∈ l := by
+  induction l with
+  | nil => simp [idxOf]
+  | cons k r ih => cases k <;> simp [idxOf, ih]
+
+theorem idxOf_erase_idx (l : List Key) (n : Nat) : idxOf (l.erase (.idx n)) = (idxOf l).erase n := by
+  induction l with
+  | nil => rfl
+  | cons k r ih =>
+    cases k with
+    | idx m =>
+      by_cases h : m = n
+      · subst h; simp [idxOf]
+      · have h1 : (Key.idx m == Key.idx n) = false := by simp [h]
+        have h2 : (m == n) = false := by simp [h]
+        rw [List.erase_cons, h1]
+        simp only [idxOf, Bool.false_eq_true, ↓reduceIte]
+        rw [List.erase_cons, h2]
+        simp [ih]
+    | str s => rw [List.erase_cons]; simp [idxOf, ih]
+    | sym s => rw [List.erase_cons]; simp [idxOf, ih]
+
+theorem idxOf_erase_named (l : List Key) (k : Key) (hk : k.isIdx = false) : idxOf (l.erase k) = idxOf l := by
+  induction l with
+  | nil => rfl
+  | cons a r ih =>
+    rw [List.erase_cons]
+    by_cases h : a = k
+    · subst h; cases a <;> simp_all [idxOf, Key.isIdx]
+    · have : (a == k) = false := by simp [h]
+      rw [this]; cases a <;> simp [idxOf, ih]
+
+theorem filter_erase_idx (l : List Key) (n : Nat) : (l.erase (.idx n)).filter notIdx = l.filter notIdx := by
+  induction l with
+  | nil => rfl
+  | cons a r ih =>
+    rw [List.erase_cons]
+    by_cases h : a = .idx n
+    · subst h; simp [notIdx, Key.isIdx]
+    · have : (a == Key.idx n) = false := by simp [h]
+      rw [this]; simp [List.filter_cons, ih]
+
+theorem filter_erase_named (l : List Key) (k : Key) (hk : k.isIdx = false) : (l.filter notIdx).erase k = (l.erase k).filter notIdx := by
+  induction l with
+  | nil => rfl
+  | cons a r ih =>
+    by_cases ha : notIdx a = true
+    · rw [List.filter_cons, if_pos ha, List.erase_cons, List.erase_cons]
+      by_cases h : a = k
+      · subst h; simp
+      · have : (a == k) = false := by simp [h]
+        rw [this]; simp [ha, ih]
+    · have hane : a ≠ k := by intro h; subst h; simp [notIdx, hk] at ha
+      have : (a == k) = false := by simp [hane]
+      rw [List.filter_cons, if_neg ha, List.erase_cons, this]
+      simp [ha, ih]
+
+def Rel (o : Obj) (live : List Key) : Prop := o.idx.Perm (idxOf live) ∧ o.named = live.filter notIdx
+
+theorem rel_step (place : Storage) (hp : Admissible place) (o : Obj) (live : List Key) (op : Op) (h : Rel o live) :
+    Rel (o.apply place op) (liveKeys live op) := by
+  obtain ⟨hi, hn⟩ := h
+  have named_mem : ∀ k : Key, k.isIdx = false → (o.named.contains k = live.contains k) := by
+    intro k hk
+    rw [hn]
+    have : k ∈ live.filter notIdx ↔ k ∈ live := by simp [List.mem_filter, notIdx, hk]
+    cases h1 : (live.filter notIdx).contains k <;> cases h2 : live.contains k <;> simp_all
+  have add_named : ∀ k : Key, k.isIdx = false → Rel (o.addNamed k) (liveKeys live (.set k)) := by
+    intro k hk
+    simp only [Obj.addNamed, liveKeys]
+    rw [named_mem k hk]
+    split
+    · exact ⟨hi, hn⟩
+    · refine ⟨?_, ?_⟩
+      · rw [idxOf_append]; cases k <;> simp_all [idxOf, Key.isIdx]
+      · simp only; rw [hn, List.filter_append]; simp [List.filter_cons, notIdx, hk]
+  have del_named : ∀ k : Key, k.isIdx = false → Rel (o.delNamed k) (liveKeys live (.del k)) := by
+    intro k hk
+    simp only [Obj.delNamed, liveKeys]
+    refine ⟨?_, ?_⟩
+    · simp only; rw [idxOf_erase_named live k hk]; exact hi
+    · simp only; rw [hn, filter_erase_named live k hk]
+  cases op with
+  | set k =>
+    cases k with
+    | idx n =>
+      simp only [Obj.apply, Obj.addIdx, liveKeys]
+      have hc : o.idx.contains n = live.contains (.idx n) := by
+        have h1 := hi.mem_iff (a := n)
+        have h2 := mem_idxOf live n
+        cases h3 : o.idx.contains n <;> cases h4 : live.contains (Key.idx n) <;> simp_all
+      rw [hc]
+      split
+      · exact ⟨hi, hn⟩
+      · refine ⟨?_, ?_⟩
+        · simp only; rw [idxOf_append]
+          simp only [idxOf]
+          exact (hp n _).trans ((List.Perm.cons n hi).trans (List.perm_append_singleton n _).symm)
+        · simp only; rw [hn, List.filter_append]; simp [notIdx, Key.isIdx]
+    | str s => exact add_named (.str s) rfl
+    | sym s => exact add_named (.sym s) rfl
+  | del k =>
+    cases k with
+    | idx n =>
+      simp only [Obj.apply, Obj.delIdx, liveKeys]
+      refine ⟨?_, ?_⟩
+      · simp only; rw [idxOf_erase_idx]; exact hi.erase n
+      · simp only; rw [hn, filter_erase_idx]
+    | str s => exact del_named (.str s) rfl
+    | sym s => exact del_named (.sym s) rfl
+
+theorem rel_run (place : Storage) (hp : Admissible place) (ops : List Op) (o : Obj) (live : List Key) (h : Rel o live) :
+    Rel (ops.foldl (Obj.apply place) o) (ops.foldl liveKeys live) := by
+  induction ops generalizing o live with
+  | nil => exact h
+  | cons op r ih => exact ih _ _ (rel_step place hp o live op h)
+
+theorem filter_str_notIdx (l : List Key) : (l.filter notIdx).filter Key.isStr = l.filter Key.isStr := by
+  rw [List.filter_filter]; apply List.filter_congr; intro k _; cases k <;> rfl
+
+theorem filter_sym_notIdx (l : List Key) : (l.filter notIdx).filter Key.isSym = l.filter Key.isSym := by
+  rw [List.filter_filter]; apply List.filter_congr; intro k _; cases k <;> rfl
+
+/-- THE MODEL'S ORDER IS THE SPECIFICATION'S: for every admissible storage and every history, the reported keys are
+    the ascending array indices, then the string keys, then the symbols, each in order of (latest) creation -/
+theorem ownKeys_eq_spec (place : Storage) (hp : Admissible place) (ops : List Op) : (Obj.run place ops).ownKeys = specKeys ops := by
+  obtain ⟨hi, hn⟩ := rel_run place hp ops Obj.empty [] ⟨List.Perm.refl _, rfl⟩
+  unfold Obj.ownKeys specKeys Obj.run
+  simp only
+  rw [sortNat_storage_independent _ _ hi, hn, filter_str_notIdx, filter_sym_notIdx]
+
+
 -- ------------------------------------------------------------------ realms
 theorem runIn_other (w : World) (r r' : Nat) (ops : List ROp) (h : r' ≠ r) : (runIn w r ops).1 r' = w r' := by
   unfold runIn; simp [h]
